@@ -49,10 +49,12 @@ def insertW (x : Query Ã— List Nat) : List (Query Ã— List Nat) â†’ List (Query Ã
 
 def awaitOf (m : SMux) (idx : Nat) : Option Query := (m.waiters.find? (fun e => e.2.contains idx)).map (Â·.1)
 
-def showSlab (s : Slab) : String :=
+def showSlab (ht : Ht) (s : Slab) : String :=
   let items := (s.entries.zipIdx).filterMap (fun (e, i) =>
     match e with
-    | .occ (.merkle pid k sub) => some s!"{i}:M:{showPath pid}:{k}:{if sub then "S" else "P"}"
+    | .occ (.merkle pid k sub) =>
+      let b := match (ht.probes pid)[k - 1]? with | some b => toString b | none => "?"
+      some s!"{i}:M:{showPath pid}:{b}:{if sub then "S" else "P"}"
     | .occ (.leaf l) => some s!"{i}:L:{l}"
     | .vac _ => none)
   if items.isEmpty then "-" else ",".intercalate items
@@ -61,7 +63,7 @@ def showInflight (l : List (Nat Ã— Cmd)) : String :=
   if l.isEmpty then "-" else
   ",".intercalate (l.map (fun (ud, c) => match c with | .bucket b => s!"{ud}:B{b}" | .leaf l => s!"{ud}:L{l}"))
 
-def showMux (m : SMux) : String :=
+def showMux (ht : Ht) (m : SMux) : String :=
   let ws := (m.waiters.foldr insertW []).map (fun (q, w) => s!"{showQuery q}=[{showNats w}]")
   let wss := if ws.isEmpty then "-" else ";".intercalate ws
   let rs := (m.reqs.zipIdx).map (fun (r, i) =>
@@ -72,10 +74,10 @@ def showMux (m : SMux) : String :=
       | .completed _ => "D"
     s!"{st}{r.pos.depth}/{r.ios}/{match awaitOf m (m.processed + i) with | some q => showQuery q | none => "-"}")
   let rss := if rs.isEmpty then "-" else ",".intercalate rs
-  s!"proc={m.processed} reqs={rss} w={wss} slab={showSlab m.slab} vk={m.slab.next} n={m.slab.len} ir={showNats m.idleReqs} il={showNats m.idleLoads} io={showInflight m.inflight}"
+  s!"proc={m.processed} reqs={rss} w={wss} slab={showSlab ht m.slab} vk={m.slab.next} n={m.slab.len} ir={showNats m.idleReqs} il={showNats m.idleLoads} io={showInflight m.inflight}"
 
 def out (s : St) : Outcome Unit SMux â†’ St Ã— String
-  | .ok m => ({ s with mux := m }, showMux m)
+  | .ok m => ({ s with mux := m }, showMux (ht s) m)
   | .panic _ => (s, "panic")
   | .err _ => (s, "err")
 
